@@ -468,7 +468,7 @@ def rule_j6(ctx):
     rows = keys(mt["args"][3])
     tagged = {}
     for b, t in ins:
-        src = {r[1] for (r, p) in body.trace_operand(t["args"][0]) if r[0] == "call" and mir.last_seg(r[2] or "") == "compile"}
+        src = {r[1] for (r, p) in body.trace_operand(t["args"][0]) if r[0] == "call" and mir.last_seg(r[2] or "").startswith("compile")}
         tagged[t["args"][2].get("val")] = (b, src)
     if set(tagged) != {0, 1} or tagged[0][1] == tagged[1][1]:
         res.bad(Finding("J6", MERGE, "row tags", "rows of the two arrays must be tagged with the constants 0 and 1 respectively", ins[0][1]["sp"]))
